@@ -112,7 +112,24 @@ def check(case):
     return ok(labels, nt)
 
 
+def _ladder_cases(tier):
+    """boundary family: for every class size n and every k, the threshold exactly k/n (a feature held by exactly k of n instances
+    must be kept; an implementation comparing k >= t*n in floats drops it for pairs such as 7/25)"""
+    top = 60 if tier == "quick" else 128
+    for n in range(2, top + 1):
+        for k in range(1, n):
+            yield {"g": {"ladder": n}, "target": {"mode": "all"}, "thr": k / n,
+                   "cfg": {"instances_report_mode": "mixed", "inverse_paths": (n + k) % 2 == 0}}
+
+
 def enumerate_cases(tier):
+    for c in _ladder_cases(tier):
+        yield c
+    for c in _scale_cases(tier):
+        yield c
+
+
+def _scale_cases(tier):
     """scale family: thresholds exactly on, just below and just above (n-1)/n and 1/n for large n"""
     sizes = [(250, 1, 1), (10001, 1, 1)] if tier == "quick" else [(250, 1, 1), (1000, 3, 2), (10001, 1, 1), (20001, 2, 3)]
     for n, missing, double in sizes:
